@@ -104,6 +104,9 @@ def classify(meta, run, unit_file):
     # a loop the contract file has no invariant for cannot be verified: failures in such a function are a tool limit
     unannotated = {f['key']: (f.get('loops', 0), f.get('loops_with_invariant', 0)) for f in meta.get('functions', [])
                    if f.get('loops', 0) > f.get('loops_with_invariant', 0)}
+    # a closure without a ghost annotation is opaque to Verus (nothing is known about its result): same rule
+    opaque = {f['key']: (f.get('closures', 0), f.get('closures_annotated', 0)) for f in meta.get('functions', [])
+              if f.get('closures', 0) > f.get('closures_annotated', 0)}
     canary_lines = set(meta.get('canary_lines', []))
     canary_failed = False
     if run['timed_out']:
@@ -143,6 +146,11 @@ def classify(meta, run, unit_file):
                 tool_scoped.append({'tags': info.get('tags', []), 'clause': info['clause'],
                                     'msg': 'fn %s has %d loop(s) but the contract supplies invariants for %d: obligation %s is undecided (not a violation)' %
                                            (info['fn'], unannotated[info['fn']][0], unannotated[info['fn']][1], info['clause'])})
+                continue
+            if info['fn'] in opaque:
+                tool_scoped.append({'tags': info.get('tags', []), 'clause': info['clause'],
+                                    'msg': 'fn %s contains %d closure(s) of which %d carry a ghost annotation; an un-annotated closure is opaque to the verifier: obligation %s is undecided (not a violation)' %
+                                           (info['fn'], opaque[info['fn']][0], opaque[info['fn']][1], info['clause'])})
                 continue
             failed.append({'fn': info['fn'], 'clause': info['clause'], 'tags': info.get('tags', []),
                            'message': msg, 'line': line, 'kind': kind,
